@@ -136,6 +136,8 @@ def run(tier):
         np_ = len(base)
         ops = [("add",)] + [("insert", i) for i in range(0, np_ + 2)] + [("remove", i) for i in range(0, np_ + 2)]
         ops += [("add", "empty-value")] + [("insert", i, "empty-value") for i in range(0, np_ + 1)]
+        if np_ >= 2:
+            ops += [("remove-all", "front"), ("remove-all", "back")]
         for op in ops:
             n += 1
             empty_fill = op[-1] == "empty-value"
@@ -170,6 +172,15 @@ def run(tier):
                 elif op[0] == "insert":
                     res = I.inline(F.fn(P + "Deb822::insert_paragraph"), [("ref", (("T", "doc"),)), hirai.mkint(op[1])], s0)
                     model.insert(min(op[1], len(model)), [fill_model])
+                elif op[0] == "remove-all":
+                    res = [(OK, hirai.UNIT, s0)]
+                    for k in range(np_):
+                        idx = 0 if op[1] == "front" else np_ - 1 - k
+                        nxt = []
+                        for ctl, v, sx in res:
+                            nxt += I.inline(F.fn(P + "Deb822::remove_paragraph"), [("ref", (("T", "doc"),)), hirai.mkint(idx)], sx) if ctl == OK else [(ctl, v, sx)]
+                        res = nxt
+                    model = []
                 else:
                     res = I.inline(F.fn(P + "Deb822::remove_paragraph"), [("ref", (("T", "doc"),)), hirai.mkint(op[1])], s0)
                     if op[1] < len(model):
@@ -187,14 +198,14 @@ def run(tier):
                 C.ob("C05/analysis", label, False, str(e))
                 continue
             if len(res) != 1 or res[0][0] != OK:
-                C.ob("C05/operation", label, False, "operation has outcomes %s" % [(ctl, str(v)[:80]) for ctl, v, s in res], F.fn(P + "Deb822::" + {"add": "add_paragraph", "insert": "insert_paragraph", "remove": "remove_paragraph"}[op[0]])["sp"])
+                C.ob("C05/operation", label, False, "operation has outcomes %s" % [(ctl, str(v)[:80]) for ctl, v, s in res], F.fn(P + "Deb822::" + {"add": "add_paragraph", "insert": "insert_paragraph", "remove": "remove_paragraph", "remove-all": "remove_paragraph"}[op[0]])["sp"])
                 continue
             s = res[0][2]
             h = treemodel.heap_get(s)
             flat = []
             flatten(tm, h, root, flat)
             text = db.text_of_tokens(flat)
-            fn_sp = F.fn(P + "Deb822::" + {"add": "add_paragraph", "insert": "insert_paragraph", "remove": "remove_paragraph"}[op[0]])["sp"]
+            fn_sp = F.fn(P + "Deb822::" + {"add": "add_paragraph", "insert": "insert_paragraph", "remove": "remove_paragraph", "remove-all": "remove_paragraph"}[op[0]])["sp"]
             import c07
             re_toks = c07.relex(F, flat)
             got_paras, err = split_by_dfa(re_toks) if re_toks is not None else (None, "the printed text cannot be re-lexed")
@@ -211,6 +222,10 @@ def run(tier):
             if op[0] == "remove" and op[1] < len(base):
                 for cm in inner.get(op[1], []):
                     want_comments.remove(cm)
+            if op[0] == "remove-all":
+                for cms in inner.values():
+                    for cm in cms:
+                        want_comments.remove(cm)
             C.ob("C05/comments-kept", label, comments1 == want_comments, "comments before %s, after %s" % (comments0, comments1), fn_sp)
             if tm.invalidations:
                 C.note("iterator-invalidation-observed", label)
